@@ -7,6 +7,15 @@ import os
 import sys
 
 TWIN = os.environ.get("XH_TWIN") == "1"
+# XH_NO_PATCH=1: the module is being imported by a DRIVER process for its tables and oracle only; nothing in
+# zorg may be patched there, because the same process replays counterexamples on the real code.
+PATCH = os.environ.get("XH_NO_PATCH") != "1"
+
+
+def set(module, name, value):          # noqa: A001
+    """module.name = value, unless patching is disabled (driver process)"""
+    if PATCH:
+        setattr(module, name, value)
 _BODY_CALLS = [0]
 
 
@@ -34,6 +43,8 @@ class NullLogger:
 
 def stub_loggers():
     n = 0
+    if not PATCH:
+        return 0
     for name, mod in list(sys.modules.items()):
         if name.startswith("zorg") and mod is not None and hasattr(mod, "_LOGGER"):
             setattr(mod, "_LOGGER", NullLogger())
@@ -82,7 +93,7 @@ _STRPTIME_INSTALLED = [False]
 
 def install_strptime_model():
     import crosshair
-    if _STRPTIME_INSTALLED[0]:
+    if _STRPTIME_INSTALLED[0] or not PATCH:
         return
     _STRPTIME_INSTALLED[0] = True
     crosshair.register_patch(dt.datetime.strptime, strptime_model)
@@ -129,7 +140,8 @@ class _DtShim:
 
 def patch_clock(module):
     """Replace module.dt by a shim whose date.today()/datetime.now() are harness-controlled."""
-    module.dt = _DtShim(dt)
+    if PATCH:
+        module.dt = _DtShim(dt)
 
 
 # ----------------------------------------------------------------------------- in-memory FS
